@@ -221,7 +221,7 @@ static void v_asan_cb(const char *report) {
 }
 const char *__asan_default_options(void) {
     return "detect_leaks=0:symbolize=0:allocator_may_return_null=1:abort_on_error=0:exitcode=99:"
-           "handle_abort=1:detect_stack_use_after_return=0:max_malloc_fill_size=0:print_legend=0:"
+           "handle_abort=1:detect_stack_use_after_return=0:max_malloc_fill_size=4096:malloc_fill_byte=165:print_legend=0:"
            "allow_user_poisoning=1";
 }
 #endif
